@@ -84,13 +84,18 @@ FieldFails(e, g) ==
                    ELSE (IF ~m.nope /\ m.mod = e.mod /\ m.tscset = 0 /\ m.tsc \in e.tscs THEN {} ELSE {"C10.modulation-tsc"})
                         \cup (IF InWin(m.ci, e.ci) THEN {} ELSE {"C10.ci"})))
 
+\* Expected and observed deliveries are aligned in order.  An expected entry that
+\* must not be sent (invalid message, C13) only matches a datagram that carries
+\* exactly its values; a burst suppressed on a version-0 link matches any
+\* datagram for its slot.
 RECURSIVE Align(_, _)
 Align(exp, got) ==
   IF exp = <<>> THEN (IF got = <<>> THEN {} ELSE {"C02.unexpected-delivery"})
   ELSE LET e == exp[1] IN
        IF got # <<>> /\ SameSlot(e, got[1])
-       THEN (IF MustNotSend(e) /\ e.kind # "none" THEN {"C13.invalid-message-sent"} ELSE {})
-            \cup FieldFails(e, got[1]) \cup Align(Tail(exp), Tail(got))
+          /\ ((MustNotSend(e) /\ e.kind # "none") => FieldFails(e, got[1]) \subseteq {"C12.ports"})
+       THEN (IF MustNotSend(e) /\ e.kind # "none" THEN {"C13.invalid-message-sent"} ELSE FieldFails(e, got[1]))
+            \cup Align(Tail(exp), Tail(got))
        ELSE IF MustSend(e) THEN {IF e.kind = "nope" THEN "C18.nope-missing" ELSE "C02.missing-delivery"} \cup Align(Tail(exp), got)
        ELSE Align(Tail(exp), got)
 
